@@ -555,6 +555,22 @@ func (c *checkCtx) replayOne(path string) int {
 	cf := filepath.Join(c.work, "one.ndjson")
 	cb, _ := json.Marshal(rf.Case)
 	_ = os.WriteFile(cf, append(cb, '\n'), 0o644)
+	if rf.Family == "engine-trace" {
+		// a rejected recorded trace: record the case again on the current tree and have TLC validate the new trace
+		traces := c.recordTraces("engine", cf, replayOpts{workers: 1, timeout: 8 * time.Second, opts: rf.Opts}, engineInitLine)
+		c.validateTraces("engine", "EngineTrace", "EngineTrace.cfg", traces, traceOpts{})
+		for _, t := range traces {
+			for _, l := range t.lines {
+				fmt.Println(string(l))
+			}
+		}
+		if len(c.violations) > 0 || len(c.knownLines) > 0 {
+			fmt.Printf("VIOLATION property=%s replay=%s\n", c.id, path)
+			return 1
+		}
+		fmt.Println("the recorded trace is accepted by EngineTrace.tla")
+		return 0
+	}
 	_, res := c.replay(rf.Family, cf, replayOpts{workers: 1, opts: rf.Opts})
 	rb, _ := json.MarshalIndent(res[0], "", " ")
 	fmt.Println(string(rb))
